@@ -175,6 +175,8 @@ def parse_operand(s):
         return ('move', parse_place(s[5:]))
     if s.startswith('const '):
         return ('const', s[6:].strip())
+    if re.fullmatch(r'[\w:<>, &\'\[\];]+', s) and '::' in s:
+        return ('const', 'ZeroSized: fn() {' + s + '}')   # bare function item
     raise MirError('bad operand ' + s)
 
 
